@@ -50,9 +50,18 @@ def write(pid, tier, seed, results, rc, wall, known_lines, inconclusive, viol_pa
     for o in obligations[:6]:
         samples.append({"obligation": o["name"], "function": o.get("function"), "contract": o.get("contract"),
                         "verdict": o["verdict"], "complete": o.get("complete", True), "bound": o.get("bound")})
+    if level == "proof":
+        # bounded stand-ins are never counted as proved: the proof-level counts are the unbounded core
+        n_obl_rep = len(unbounded)
+        n_dis_rep = sum(1 for o in unbounded if o["verdict"] == "discharged")
+    else:
+        n_obl_rep, n_dis_rep = n_obl, n_dis
     coverage = {
-        "obligations": n_obl,
-        "discharged": n_dis,
+        "obligations": n_obl_rep,
+        "discharged": n_dis_rep,
+        "counting_rule": "level proof: obligations/discharged count only unbounded (complete) obligations; bounded stand-ins are listed in bounded_obligations with their bounds and are not counted as proved",
+        "bounded_total": len(bounded),
+        "bounded_discharged": sum(1 for b in bounded if b["verdict"] == "discharged"),
         "checker_cmd": " ;; ".join(cmds) if cmds else "none",
         "trusted_base": trusted + FIXED_TRUSTED,
         "samples": samples,
